@@ -302,3 +302,78 @@ vproof! {
         kani::cover!(region_b && rng.pos == 5, "reject region, accepted at the second candidate");
     }
 }
+
+// ---- C07: Normal / LogNormal are mean + std_dev * z (resp. its exponential) for every parameter pair ----
+macro_rules! c07_normal {
+    ($name:ident, $f:ty) => {
+        vproof_free! {
+            fn $name() {
+                let mut rng = SymRng::new(1);
+                let mean: $f = kani::any();
+                let sd: $f = kani::any();
+                let d = match Normal::<$f>::new(mean, sd) { Ok(d) => d, Err(_) => return };
+                let x: $f = d.sample(&mut rng);
+                // the same number of words whatever the parameters (std_dev = 0 and negative std_dev included)
+                vassert!(rng.pos == 1 && flog_n() == 1, "Normal: number of standard draws depends on the parameters");
+                let (_, _, z) = flog_get(0);
+                vassert!(biteq64(x as f64, (mean + sd * (z as $f)) as f64), "Normal: sample is not mean + std_dev * z");
+                // from_zscore for the same z
+                vassert!(biteq64(d.from_zscore(z as $f) as f64, (mean + sd * (z as $f)) as f64), "Normal::from_zscore(z) is not mean + std_dev * z");
+                kani::cover!(z == 2.0 && sd < 0.0, "z = 2, negative std_dev");
+                kani::cover!(sd == 0.0, "std_dev = 0");
+            }
+        }
+    };
+}
+//@ id: c07_normal_f64
+//@ prop: C07
+//@ tier: quick
+//@ cap: 900
+//@ funcs: Normal::<f64>::new; Normal::<f64>::sample; from_zscore
+//@ bounds: every accepted (mean, std_dev) incl. negative and zero std_dev; z over the free-stub value set {0,-0,+-1,2,1/2,3/4,-3}
+//@ assumes: utils::ziggurat replaced by a free logged draw consuming one word
+c07_normal!(c07_normal_f64, f64);
+//@ id: c07_normal_f32
+//@ prop: C07
+//@ tier: quick
+//@ cap: 900
+//@ funcs: Normal::<f32>::new; Normal::<f32>::sample; from_zscore
+//@ bounds: as c07_normal_f64
+//@ assumes: utils::ziggurat replaced by a free logged draw
+c07_normal!(c07_normal_f32, f32);
+
+macro_rules! c07_lognormal {
+    ($name:ident, $f:ty) => {
+        vproof_free! {
+            fn $name() {
+                let mut rng = SymRng::new(1);
+                let mu: $f = kani::any();
+                let sigma: $f = kani::any();
+                let d = match LogNormal::<$f>::new(mu, sigma) { Ok(d) => d, Err(_) => return };
+                let x: $f = d.sample(&mut rng);
+                vassert!(rng.pos == 1 && flog_n() == 2, "LogNormal: expected one standard draw and one exponential");
+                let (_, _, z) = flog_get(0);
+                let (a, _, e) = flog_get(1);
+                vassert!(biteq64(a, (mu + sigma * (z as $f)) as f64), "LogNormal: exponential is not taken of mu + sigma * z");
+                vassert!(biteq64(x as f64, (e as $f) as f64), "LogNormal: sample is not exp(mu + sigma * z)");
+                kani::cover!(z == 2.0, "z = 2");
+            }
+        }
+    };
+}
+//@ id: c07_lognormal_f64
+//@ prop: C07
+//@ tier: quick
+//@ cap: 900
+//@ funcs: LogNormal::<f64>::new; LogNormal::<f64>::sample
+//@ bounds: every accepted (mu, sigma); z over the free-stub value set
+//@ assumes: utils::ziggurat, libm::exp replaced by free logging stubs
+c07_lognormal!(c07_lognormal_f64, f64);
+//@ id: c07_lognormal_f32
+//@ prop: C07
+//@ tier: quick
+//@ cap: 900
+//@ funcs: LogNormal::<f32>::new; LogNormal::<f32>::sample
+//@ bounds: as c07_lognormal_f64
+//@ assumes: utils::ziggurat, libm::expf replaced by free logging stubs
+c07_lognormal!(c07_lognormal_f32, f32);
